@@ -11,3 +11,8 @@ import SynKitProofs.Props.C20
 #print axioms SynKit.Petri.certificate_check_sound
 #print axioms SynKit.Petri.bfs_never_fuelOut
 #print axioms SynKit.Petri.bfs_complete_partial
+#print axioms SynKit.Petri.bfs_notFound_within_states
+#print axioms SynKit.Petri.bfs_complete_within_bounds
+#print axioms SynKit.Petri.bfs_complete_within_bounds_5a
+#print axioms SynKit.Petri.bfs_never_unrealizable_within_bounds
+#print axioms SynKit.Petri.bfs_complete_within_bounds_card
